@@ -335,6 +335,8 @@ type Out struct {
 	EA           *simnet.Endpoint
 	Aborted      bool // the session stalled and was aborted
 	Par          *Out // the session served at the same time, if any
+	// PreGDone, PreEDone: the faulted first session (RunPrelude) has returned at that party
+	PreGDone, PreEDone bool
 }
 
 type otSpy struct {
@@ -477,6 +479,7 @@ func RunReuse(t *rt.Tape, c, par, pre *Case, dir int, cut uint64, failedCompileF
 			if pre != nil {
 				c0 := p2p.NewConn(eaP)
 				_, _, err := compiler.New(NewParams(simrand.Stream("G-garble-0"))).Stream(c0, twopc.NewOT(otKind, simrand.Stream("G-ot-0")), "{data}", strings.NewReader(pre.Prog.Src), pre.In[0], pre.Sizes)
+				o.PreGDone = true
 				if err == nil {
 					c0.Close()
 				} else {
@@ -506,6 +509,7 @@ func RunReuse(t *rt.Tape, c, par, pre *Case, dir int, cut uint64, failedCompileF
 			if pre != nil {
 				c0 := p2p.NewConn(ebP)
 				_, _, err := circuit.StreamEvaluator(c0, twopc.NewOT(otKind, simrand.Stream("E-ot-0")), pre.In[1], nil, Verbose)
+				o.PreEDone = true
 				if err == nil {
 					c0.Close()
 				} else {
@@ -697,7 +701,7 @@ func (w *c05) Run(t *rt.Tape, trace bool) *core.Result {
 		if c2 != nil && strings.Contains(o.RR.Crashed[0].ID, "-par#") {
 			name = c2.Prog.Name
 		}
-		if pre != nil && !(o.GDone || o.EDone) {
+		if pre != nil && (!o.PreGDone || !o.PreEDone || !(o.GDone || o.EDone)) {
 			// a crash while the faulted session may still have been running: only an undisturbed
 			// session is this property's business (and the known finding is keyed by program)
 			res.Discard = true
